@@ -135,3 +135,17 @@ func debugOrigin(p *Program, arg string) int {
 	}
 	return 0
 }
+
+func debugUnits(p *Program, arg string) int {
+	ua := newUnitAnalysis(p)
+	fns := p.allRepoFuncs()
+	k, n := ua.knownIn(fns)
+	fmt.Printf("numeric values: %d, with a known unit: %d\n", n, k)
+	for _, c := range ua.conflicts(fns) {
+		if arg != "" && !strings.Contains(shortFn(c.fn), arg) {
+			continue
+		}
+		fmt.Printf("%s: %s: %s [%s]\n", p.pos(c.pos), shortFn(c.fn), c.what, c.key)
+	}
+	return 0
+}
